@@ -9,6 +9,11 @@ CHECKS = {
    note="Trusted: the reference planner (mc/model/plan.go) as the statement of the documented denotation; the fixture tree; Go runtime. Map-iteration-order independence is decided by the woven map-order exploration (see C07/C05 woven part) where available.",
    ref="§3 C05"),
 }
+CHECKS["C01"] = dict(level="model_checking", engine="E1-enum",
+   technique="bounded-exhaustive enumeration of content lists x build settings, all five packagers run for real, payload decoded by independent readers and compared with a reference planner",
+   text="Every content list of length <=2 over an alphabet of 25 (thorough 36) entry templates + 15 packager-tagged ones (thorough: also triples over the 12 simplest), crossed with every <=1-deviation build setting (umask, mtime A/B/unset, disable_globbing, deb compression xz/zstd/none, rpm compression gzip:9/xz/lzma/zstd/zstd:fastest), is built for all five formats through Parse->Get->WithDefaults->Package. The payload is decoded by harness-owned ar/tar/cpio/rpm-header readers and compared entry by entry (path set, bytes, 12 mode bits, owner, group, mtime, link target, implied parents, rpm without implied dirs) with the reference plan. Exhaustive within that alphabet.",
+   note="Trusted: reference planner mc/model/plan.go; decoders in mc/pkgread (stdlib tar/gzip readers, own ar/cpio/rpm parsers, xi2/xz, klauspost zstd decoder, xz CLI for lzma); symlink modes and directory mtimes not compared.",
+   ref="§3 C01")
 NOT_YET = {}
 ALL = ["C%02d" % i for i in range(1, 18)]
 
